@@ -153,7 +153,7 @@ func pairIface(name string, s, t *space.Ty) string {
 	return fmt.Sprintf("// goverter:converter\ntype %s interface {\n\tConvert(source %s) %s\n}\n\n", name, s.Go("conv"), t.Go("conv"))
 }
 
-const convHeader = "package conv\n\nimport (\n\t\"unsafe\"\n\n\t\"vx/in\"\n\t\"vx/out\"\n)\n\nvar (\n\t_ unsafe.Pointer\n\t_ in.MyInt\n\t_ out.MyInt\n)\n\n"
+const convHeader = "package conv\n\nimport (\n\t\"unsafe\"\n\n\t\"vx/in\"\n\t\"vx/out\"\n\t\"vx/third\"\n)\n\nvar (\n\t_ unsafe.Pointer\n\t_ in.MyInt\n\t_ out.MyInt\n\t_ third.ID3\n)\n\n"
 
 // PairWorker explores the pairs idx ≡ shard (mod n): model verdict vs. real in-process outcome.
 func PairWorker(w *pool.W, shard, n int, tier string) error {
